@@ -12,9 +12,17 @@ RULE = ('join correspondence: (hook level, feature verif_hooks) Line::extents, L
         'search p_thick: pixels() = draw(), all pixels inside the styled bounding box, and for strokes with segments >= 6 widths and interior '
         'angles >= 15 degrees a real-number reference: every stroke pixel lies within 1.2 * reach + 1.5 of a segment or within the miter limit '
         '(2 widths + 2) of a join, and the inner 55 percent of the stroke band along every segment is covered')
-PARTIAL = []
-ASSUMPTIONS = ['join theorems: no saturation in the join intersection (stated as |coordinates| <= 511 for IntersectionParams::intersection, '
-               'or as the explicit in-range hypothesis of the raw quotient); widths and coordinates in the range where i32/i64 arithmetic does not overflow']
+PARTIAL = ['C07_join_triangle_edge_scanline_translate_partial (full statement: C07_join_triangle_translate - pixels()/draw()/bounding box of a '
+           'stroked triangle commute with translation; OPEN, see coq/Proofs/Join.v section 8; the executable model Model/JoinTri.v is compared '
+           'with the implementation and p_translate searches the property)',
+           'C07_join_polyline_*_translate carry hypotheses on internal values (poly_nosat: no used rounded intersection reaches the saturating cast; '
+           'poly_box_ok: segment corners within +-2^29); a coordinate bound implying them (C07_join_hypotheses_from_coordinates) is OPEN; '
+           'the model oracle evaluates them on every generated case (suite join_poly_hyp: true on all inputs up to +-2^13, widths <= 64)']
+ASSUMPTIONS = ['join theorems: the saturating cast of round_div is modelled; theorems that go through it assume it is not reached '
+               '(isect_nosat / join_nosat / poly_nosat, computable predicates of the input; guaranteed for all line pairs within +-511 by '
+               'C07_join_intersection_translate); all other i32/i64 arithmetic of the join code is modelled unbounded: model and code agree '
+               'while |coordinates| <= 2^13 and width <= 2^13 (normal vector determinant and dot products stay below 2^31), which is the range '
+               'the correspondence suites sample']
 TRUSTED = ['modelled, not verified: i64::div_euclid as floor division by a positive divisor, az::SaturatingAs i64->i32 as clamping']
 
 
